@@ -4,6 +4,7 @@
 package a2j
 
 import (
+	"unicode/utf8"
 	"fmt"
 	"go/ast"
 	"go/constant"
@@ -95,12 +96,24 @@ func (t *Tr) cmt2(items []jen.Code, endOK bool) []jen.Code {
 		}
 		return marker + " " + body
 	}
-	mk := func(tx string) *jen.Statement {
-		if t.crnd.Intn(4) == 0 {
-			return jen.Commentf("%s", tx)
+	// the ways of saying the same comment: Comment(text); Commentf with the text as only operand, split over two
+	// operands, or as the format itself (percent signs doubled, no operands)
+	on := func(st *jen.Statement, tx string) *jen.Statement {
+		switch t.crnd.Intn(8) {
+		case 0:
+			return st.Commentf("%s", tx)
+		case 1:
+			return st.Commentf(strings.ReplaceAll(tx, "%", "%%"))
+		case 2:
+			h := len(tx) / 2
+			for h > 0 && h < len(tx) && !utf8.RuneStart(tx[h]) {
+				h--
+			}
+			return st.Commentf("%s%v", tx[:h], tx[h:])
 		}
-		return jen.Comment(tx)
+		return st.Comment(tx)
 	}
+	mk := func(tx string) *jen.Statement { return on(&jen.Statement{}, tx) }
 	out := make([]jen.Code, 0, len(items)+2)
 	for _, it := range items {
 		if t.crnd.Intn(6) == 0 {
@@ -113,11 +126,7 @@ func (t *Tr) cmt2(items []jen.Code, endOK bool) []jen.Code {
 			t.hit("comment.end")
 			tx := text()
 			t.Comments = append(t.Comments, tx)
-			if t.crnd.Intn(4) == 0 {
-				st.Commentf("%s", tx)
-			} else {
-				st.Comment(tx)
-			}
+			on(st, tx)
 		}
 		out = append(out, it)
 	}
